@@ -906,7 +906,7 @@ fn gen_case(rng: &mut Rng) -> Case {
                     6 => if rng.chance(1, 3) { Op::Clear(h) } else { Op::Length(h) },
                     7 => Op::IsEmpty(h),
                     8 => Op::Contains(h, gen_v(rng, slots)),
-                    9 => Op::Join(h, rng.pick(&[",", "", ", ", "--", "\u{6f22}"]).to_string()),
+                    9 => Op::Join(h, rng.pick(&[",", "", ", ", "--", "\u{6f22}", "#", "\n", " ", "\t", "=x", "==", "\u{e9}", "a b", "\"", "\r\n"]).to_string()),
                     _ => {
                         let mut hv = vec![h];
                         for _ in 0..rng.usize(3) {
